@@ -54,9 +54,22 @@ theorem plain_no_underscore {cs : List Char} (h : plainWord cs = true) : cs.cont
     · have := h.1; rw [← e] at this; exact absurd this (by decide)
     · rcases h.2 _ hm with h' | h' <;> exact absurd h' (by decide)
 
-theorem wrapPrec_eq (q : Nat) (e : PExp) (s : String) :
-    wrapPrec q e s = if printsParen q e then "(" ++ s ++ ")" else s := by
-  cases e <;> simp [wrapPrec, printsParen]
+theorem plain_no_escape {n : String} (h : plainWord n.toList = true) : needsEscape n = false := by
+  unfold needsEscape
+  cases hn : n.toList with
+  | nil => rw [hn] at h; simp [plainWord] at h
+  | cons c tl =>
+    rw [hn] at h
+    have hnu := plain_no_underscore h
+    simp only [plainWord, Bool.and_eq_true] at h
+    have h1 : (c == '$') = false := by
+      have : c ≠ '$' := letter_ne h.1 (by decide)
+      simpa using this
+    have h2 : (c == '_') = false := by
+      have : c ≠ '_' := letter_ne h.1 (by decide)
+      simpa using this
+    simp only [List.dropWhile, h1, h2]
+    exact hnu
 
 theorem delim_space (r : List Char) : Delim (' ' :: r) := Or.inr ⟨_, _, rfl, Or.inl rfl⟩
 theorem delim_lpar (r : List Char) : Delim ('(' :: r) := Or.inr ⟨_, _, rfl, Or.inr (Or.inl rfl)⟩
@@ -103,7 +116,7 @@ theorem leaf_head {e : PExp} (h : TextOK e) (hl : e.isLeaf = true) :
   | bool b => cases b <;> simp [fmtExp] <;> decide
   | var n =>
     have hw : plainWord n.toList = true := h
-    have hnu : (n.toList.contains '_') = false := plain_no_underscore hw
+    have hnu : needsEscape n = false := plain_no_escape hw
     simp only [fmtExp, varText, hnu]
     cases hn : n.toList with
     | nil => rw [hn] at hw; simp [plainWord] at hw
@@ -152,7 +165,7 @@ theorem lexExp : (t : PExp) → TextOK t → ∀ (rest : List Char) (pw : Bool) 
     simpa [fmtExp, fmtToks] using lexTo_word "false".toList rest pw acc (by decide) hd
   | .var n, h, rest, pw, acc, hd => by
     have hw : plainWord n.toList = true := h
-    have hnu : ¬ ('_' ∈ n.toList) := by simpa using plain_no_underscore hw
+    have hnu : needsEscape n = false := plain_no_escape hw
     simpa [fmtExp, fmtToks, varText, hnu] using lexTo_word n.toList rest pw acc hw hd
   | .call n args, h, rest, pw, acc, hd => by
     have hct : ∀ ss, callText n args ss = n ++ "(" ++ joinWith ", " ss ++ ")" := by
@@ -199,29 +212,29 @@ theorem lexExp : (t : PExp) → TextOK t → ∀ (rest : List Char) (pw : Bool) 
     have ihl := lexExp l h.1
     have ihr := lexExp r h.2
     -- an operand under `op`
-    have hw : ∀ (e : PExp), (∀ rest pw acc, Delim rest → LexTo ((fmtExp e).toList ++ rest) pw acc rest ((fmtToks e).reverse ++ acc)) →
+    have hw : ∀ (side : Bool) (e : PExp), (∀ rest pw acc, Delim rest → LexTo ((fmtExp e).toList ++ rest) pw acc rest ((fmtToks e).reverse ++ acc)) →
         ∀ rest1 pw1 acc1, Delim rest1 →
-        LexTo ((wrapPrec (Gen.binPrec op) e (fmtExp e)).toList ++ rest1) pw1 acc1 rest1
-          ((if printsParen (Gen.binPrec op) e then parenToks (fmtToks e) else fmtToks e).reverse ++ acc1) := by
-      intro e ihe rest1 pw1 acc1 hd1
-      rw [wrapPrec_eq]
-      by_cases hp : printsParen (Gen.binPrec op) e = true
+        LexTo ((wrapOperand op side e (fmtExp e)).toList ++ rest1) pw1 acc1 rest1
+          ((if printsParen op side e then parenToks (fmtToks e) else fmtToks e).reverse ++ acc1) := by
+      intro side e ihe rest1 pw1 acc1 hd1
+      unfold wrapOperand
+      by_cases hp : printsParen op side e = true
       · have h1 := lexTo_lpar ((fmtExp e).toList ++ ')' :: rest1) pw1 acc1
         have h2 := fun pw2 => ihe (')' :: rest1) pw2 (.lpar :: acc1) (delim_rpar rest1)
         have h3 := fun pw2 => lexTo_rpar rest1 pw2 ((fmtToks e).reverse ++ .lpar :: acc1)
         have := (h1.trans h2).trans h3
         simpa [hp, parenToks, String.toList_append] using this
       · simpa [hp] using ihe rest1 pw1 acc1 hd1
-    let R := (wrapPrec (Gen.binPrec op) r (fmtExp r)).toList
-    have h1 := hw l ihl (' ' :: ((binOpText op).toList ++ ' ' :: (R ++ rest))) pw acc (delim_space _)
+    let R := (wrapOperand op true r (fmtExp r)).toList
+    have h1 := hw false l ihl (' ' :: ((binOpText op).toList ++ ' ' :: (R ++ rest))) pw acc (delim_space _)
     have h2 := fun pw1 => lexTo_space ((binOpText op).toList ++ ' ' :: (R ++ rest)) pw1
-      ((if printsParen (Gen.binPrec op) l then parenToks (fmtToks l) else fmtToks l).reverse ++ acc)
+      ((if printsParen op false l then parenToks (fmtToks l) else fmtToks l).reverse ++ acc)
     have h3 := fun pw1 => lexTo_binop op (R ++ rest) pw1
-      ((if printsParen (Gen.binPrec op) l then parenToks (fmtToks l) else fmtToks l).reverse ++ acc)
+      ((if printsParen op false l then parenToks (fmtToks l) else fmtToks l).reverse ++ acc)
     have h4 := fun pw1 => lexTo_space (R ++ rest) pw1
-      (binKwTok op :: ((if printsParen (Gen.binPrec op) l then parenToks (fmtToks l) else fmtToks l).reverse ++ acc))
-    have h5 := fun pw1 => hw r ihr rest pw1
-      (binKwTok op :: ((if printsParen (Gen.binPrec op) l then parenToks (fmtToks l) else fmtToks l).reverse ++ acc)) hd
+      (binKwTok op :: ((if printsParen op false l then parenToks (fmtToks l) else fmtToks l).reverse ++ acc))
+    have h5 := fun pw1 => hw true r ihr rest pw1
+      (binKwTok op :: ((if printsParen op false l then parenToks (fmtToks l) else fmtToks l).reverse ++ acc)) hd
     have := (((h1.trans h2).trans h3).trans h4).trans h5
     simpa [fmtExp, fmtToks, String.toList_append, R] using this
   | .str _, h, _, _, _, _ | .prim _, h, _, _, _, _ | .cvar _ _, h, _, _, _, _ | .access _ _, h, _, _, _, _
